@@ -57,7 +57,9 @@ def build(scn, signer, halg, opts=None, doc=None):
     """Create the signature with PGPy.  -> dict(sig, verify_subject, verifier (public PGPKey), ref_subject, ref_key, want_type)"""
     import pgpy
     from pgpy.constants import SignatureType, HashAlgorithm, KeyFlags, RevocationReason
-    opts = dict(opts or {})
+    from mc import alias
+    # the option values are handed over as the caller's own containers and re-used by the caller as soon as the call is back (mc/alias.py)
+    opts = alias.fresh(dict(opts or {}))
     h = HashAlgorithm[halg]
     key, raw = signer_cert(signer)
     tkey, traw = target_cert()
@@ -120,6 +122,7 @@ def build(scn, signer, halg, opts=None, doc=None):
         bkw = dict(kw)
         usage = bkw.pop('usage', usage)
         host.add_subkey(sub, usage=usage, **bkw)
+        alias.scribble(usage)
         sbody = rkeys.public_body(sraw)
         hostpub = host.pubkey
         subpub = list(hostpub.subkeys.values())[0]
@@ -145,6 +148,7 @@ def build(scn, signer, halg, opts=None, doc=None):
                    ref_subject={'key': pbody, 'uid': SIGNER_UID.encode()}, want_type=0x30)
     else:
         raise ValueError(scn)
+    alias.scribble(opts)
     return out
 
 
